@@ -103,6 +103,11 @@ def cases(tier, seed):
                 chunk = 40
                 for c in range(0, nidx, chunk):
                     add('index', D=D, P=P, vals=vk, rank=rank, start=c, stop=min(nidx, c + chunk), nsample=40 if tier == 'quick' else 216)
+            # degenerate extents: one element, one row / column, no element at all
+            for alt in ((1,), (0,), (1, 4), (3, 1), (0, 3), (2, 1, 2), (1, 1, 1)):
+                nidx = len(index_exprs(len(alt), np.random.default_rng(0), 40 if tier == 'quick' else 216))
+                for c in range(0, nidx, 60):
+                    add('index', D=D, P=P, vals=vk, rank=len(alt), start=c, stop=min(nidx, c + 60), nsample=40 if tier == 'quick' else 216, shape=list(alt))
             add('shapeops', D=D, P=P, vals=vk)
             add('reductions', D=D, P=P, vals=vk)
             add('construct', D=D, P=P, vals=vk)
@@ -144,7 +149,7 @@ def run_case(ctx, case):
 
 def _index(ctx, p, rng):
     D, P, vk, rank = p['D'], p['P'], p['vals'], p['rank']
-    shape = SHAPES[rank]
+    shape = tuple(p['shape']) if 'shape' in p else SHAPES[rank]
     exprs = index_exprs(rank, np.random.default_rng(0), p['nsample'])[p['start']:p['stop']]
     for idx in exprs:
         if not _valid(idx, shape):
@@ -161,12 +166,12 @@ def _index(ctx, p, rng):
         ok, why = _slicewise(y, data, lambda s: s[idx])
         if not ok:
             ctx.violation('getitem:value:%s' % icls, {'index': _fmt(idx), 'shape': shape, 'D': D, 'P': P, 'why': why}); continue
-        ctx.ok('getitem', ('get', rank, _fmt(idx), D, P, vk))
+        ctx.ok('getitem', ('get', shape, _fmt(idx), D, P, vk))
         # basic indexing always yields a view; an all-integer index gives a NumPy scalar there, but a shape-() polynomial here
         want_view = np.asarray(plain[idx]).size > 0
         if np.shares_memory(y.data, x.data) != want_view:
             ctx.violation('getitem:view:%s' % icls, {'index': _fmt(idx), 'shape': shape, 'numpy_view': bool(want_view)}); continue
-        ctx.ok('getitem:view', ('view', rank, _fmt(idx)))
+        ctx.ok('getitem:view', ('view', shape, _fmt(idx)))
         # ---- write through the view: y[...] = w must be visible in the parent exactly like in NumPy
         if y.data[0, 0].size > 0:
             w = _vals(rng, y.data.shape, vk)
@@ -178,7 +183,7 @@ def _index(ctx, p, rng):
                 y[...] = UTPM(w.copy())
                 if not _eq(x.data, model):
                     ctx.violation('writethrough:%s' % icls, {'index': _fmt(idx), 'shape': shape, 'D': D, 'P': P}); continue
-                ctx.ok('writethrough', ('wt', rank, _fmt(idx), D, P))
+                ctx.ok('writethrough', ('wt', shape, _fmt(idx), D, P))
             except Exception as e:
                 ctx.violation('writethrough:raises:%s' % icls, {'index': _fmt(idx), 'shape': shape, 'error': repr(e)[:160]}); continue
         # ---- setitem with the four right-hand-side kinds
@@ -203,7 +208,7 @@ def _index(ctx, p, rng):
                     ctx.violation('setitem:alias:raises:%s' % icls, {'index': _fmt(idx), 'shape': shape, 'error': repr(e)[:160]}); continue
                 if not _eq(x.data, model):
                     ctx.violation('setitem:alias:value:%s' % icls, {'index': _fmt(idx), 'shape': shape, 'D': D, 'P': P}); continue
-                ctx.ok('setitem:alias', ('set', rk, rank, _fmt(idx), D, P, vk))
+                ctx.ok('setitem:alias', ('set', rk, shape, _fmt(idx), D, P, vk))
                 continue
             if rk == 'utpm':
                 w = _vals(rng, (D, P) + tshape, vk); rhs = UTPM(w.copy())
@@ -228,7 +233,7 @@ def _index(ctx, p, rng):
                 ctx.violation('setitem:%s:raises:%s' % (rk, icls), {'index': _fmt(idx), 'shape': shape, 'rhs': rk, 'D': D, 'P': P, 'error': repr(e)[:160]}); continue
             if not _eq(x.data, model):
                 ctx.violation('setitem:%s:value:%s' % (rk, icls), {'index': _fmt(idx), 'shape': shape, 'rhs': rk, 'D': D, 'P': P}); continue
-            ctx.ok('setitem:' + rk, ('set', rk, rank, _fmt(idx), D, P, vk),
+            ctx.ok('setitem:' + rk, ('set', rk, shape, _fmt(idx), D, P, vk),
                    sample={'op': 'setitem', 'index': _fmt(idx), 'shape': shape, 'rhs': rk, 'D': D, 'P': P} if rng.random() < 0.002 else None)
 
 
